@@ -26,6 +26,20 @@ static slot_t slots[NSLOT];
 
 static int has_pc = 0, has_eb = 0, has_ed = 0, cur_curve = -1;
 static char last_dec_type[8];
+/* which slot the generated (x) object of a type family belongs to in this plan: a decode is compared with the
+ * generated object only if that object was generated for the slot being decoded (never with one left by an earlier plan) */
+static const char *fam_names[] = { "bn", "fp", "fp2", "fp3", "fp4", "fp6", "fp8", "fp12", "fb", "ep", "ep2", "eb", "gt", "ed",
+	"fp9", "fp16", "fp18", "fp24", "fp48", "fp54" };
+#define NFAM ((int)(sizeof(fam_names) / sizeof(fam_names[0])))
+static int x_owner[32];
+static int fam_of(const char *type) {
+	if (!strcmp(type, "bnraw")) type = "bn";
+	else if (!strcmp(type, "fpstr")) type = "fp";
+	else if (!strcmp(type, "g1")) type = "ep";
+	else if (!strcmp(type, "g2")) type = "ep2";
+	for (int i = 0; i < NFAM; i++) if (!strcmp(type, fam_names[i])) return i;
+	return NFAM;
+}
 
 /* one working object per type (x = generated, y = decoded) */
 static bn_t bx, by;
@@ -166,7 +180,9 @@ static void gen_fp(fp_t a, const char *g) {
 	else fp_rand(a);
 }
 
-static void gen_obj(const char *type, const char *g) {
+static void gen_obj_(const char *type, const char *g);
+static void gen_obj(const char *type, const char *g) { x_owner[fam_of(type)] = -1; gen_obj_(type, g); }
+static void gen_obj_(const char *type, const char *g) {
 	if (!strcmp(type, "bn") || !strcmp(type, "bnraw")) {
 		if (!strcmp(g, "zero")) bn_zero(bx);
 		else if (!strcmp(g, "one")) bn_set_dig(bx, 1);
@@ -509,6 +525,7 @@ static void engine_run(void) {
 		if (slots[i].p) free(slots[i].p);
 		slots[i].p = NULL; slots[i].len = 0; slots[i].used = 0;
 	}
+	for (int i = 0; i < 32; i++) x_owner[i] = -1;
 	(void)err_get_code();
 	while ((line = plan_next_line()) != NULL) {
 		int n = plan_split(line, tok, 16);
@@ -564,6 +581,8 @@ static void engine_run(void) {
 				continue;
 			}
 			slot_set(s, buf, (size_t)need);
+			for (int i = 0; i <= NFAM; i++) if (x_owner[i] == s) x_owner[i] = -1;
+			x_owner[fam_of(type)] = s;
 			snprintf(slots[s].type, sizeof(slots[s].type), "%s", type);
 			slots[s].fmt = fmt;
 			tr_printf("ENC %d %s %d %s ok len=%ld enc=", s, type, fmt, tok[4], need);
@@ -576,6 +595,7 @@ static void engine_run(void) {
 			long l = hex_decode(tok[3], buf, sizeof(buf));
 			if (l < 0 || !type_ok(tok[2])) { tr_printf("RAW %d %s none\n", s, tok[2]); continue; }
 			slot_set(s, buf, (size_t)l);
+			for (int i = 0; i <= NFAM; i++) if (x_owner[i] == s) x_owner[i] = -1;
 			snprintf(slots[s].type, sizeof(slots[s].type), "%s", tok[2]);
 			slots[s].fmt = fmt_of_len(tok[2], (size_t)l);
 			tr_printf("RAW %d %s len=%ld now=", s, tok[2], l);
@@ -609,6 +629,8 @@ static void engine_run(void) {
 				continue;
 			}
 			slot_set(s, buf, (size_t)need);
+			for (int i = 0; i <= NFAM; i++) if (x_owner[i] == s) x_owner[i] = -1;
+			x_owner[fam_of(type)] = s;
 			snprintf(slots[s].type, sizeof(slots[s].type), "%s", type);
 			slots[s].fmt = fmt;
 			tr_printf("ENC %d %s %d xcode ok len=%ld enc=", s, type, fmt, need);
@@ -648,7 +670,7 @@ static void engine_run(void) {
 				continue;
 			}
 			int fmt = fmt_of_len(type, len);
-			int same = strcmp(type, slots[s].type) == 0 ? same_obj(type) : -1;
+			int same = (strcmp(type, slots[s].type) == 0 && x_owner[fam_of(type)] == s) ? same_obj(type) : -1;
 			snprintf(last_dec_type, sizeof(last_dec_type), "%s", type);
 			uint8_t *ob = (uint8_t *)malloc(len ? len : 1);
 			memset(ob, 0x5A, len ? len : 1);
